@@ -250,15 +250,35 @@ def run(ctx):
             sched = rand_schedule(ctx.rng, n)
         sessions.append((shapes, sched, [ctx.rng.random() < 0.5 for _ in shapes]))
 
+    # STORE TIME passes on a persistent connection: idle gaps of 6-60 s between requests (the Valet's
+    # idle timeout is 5 s) and applications that yield nothing for several seconds while streaming
+    for _ in range(ctx.n(40, 600)):
+        n = ctx.rng.randint(2, 4)
+        shapes = []
+        for i in range(n):
+            if ctx.rng.random() < 0.5:
+                idle = [b""] * ctx.rng.randint(2, 5)
+                shapes.append(("nolen", idle + [b"x%d" % i] + ([b""] * ctx.rng.randint(0, 2)) + [b"tail"]))
+            else:
+                shapes.append(shape_of(ctx.rng.choice(KINDS), ctx.rng, i))
+        sched = []
+        for i in range(n):
+            sched += [("q",), ("c", None, None), ("s", None, None)]
+            for _ in range(8):            # the response is produced slowly: time passes between service calls
+                sched += [("t", ctx.rng.choice([0.5, 2.0, 3.0, 4.0])), ("s", None, None), ("c", None, None)]
+            sched += [("t", ctx.rng.choice([6.0, 9.5, 30.0, 60.0])), ("s", None, None), ("c", None, None)]   # idle gap
+        sessions.append((shapes, sched, [ctx.rng.random() < 0.5 for _ in shapes]))
+
     cases, metas = [], []
     failing = []
     for shapes, sched, gen in sessions:
         res = run_one(shapes, sched, gen)
+        timed = any(st[0] == "t" for st in sched)
         closing = shapes[-1][0] == "close"
-        nontrivial = closing or (len(shapes) >= 2 and any(s[0] in ("nolen", "empty") for s in shapes[1:]))
+        nontrivial = closing or timed or (len(shapes) >= 2 and any(s[0] in ("nolen", "empty") for s in shapes[1:]))
         ctx.case({"shapes": [repr(s) for s in shapes], "schedule": sched, "gen": gen,
                   "framings": res["framings"], "n_responses": len(res["responses"])},
-                 nontrivial=nontrivial, kind=("closing N=%d" if closing else "N=%d") % len(shapes))
+                 nontrivial=nontrivial, kind=("closing N=%d" if closing else "timed N=%d" if timed else "N=%d") % len(shapes))
         why = prop_violation(shapes, res)
         if why:
             failing.append((shapes, sched, gen, res, why))
@@ -344,6 +364,7 @@ def run(ctx):
             "key": ("responder-reset-chunkable" if undelimited else
                     "nonpersistent-request-closed-before-body" if (shapes[-1][0] == "close" and
                                                                    len(res["responses"]) < len(shapes)) else
+                    "keepalive-dropped-while-idle" if any(st[0] == "t" for st in sched) else
                     "keepalive-responses-missing" if len(res["responses"]) < len(shapes) else
                     "response-body-alias"),
             "shapes": [repr(s) for s in shapes], "schedule": sched, "generator_app": gen,
